@@ -302,6 +302,12 @@ impl<'a> ReplyData<'a> {
         let new_function_name = new_handler.function_name();
         let new_reply_on = new_handler.msg_attr().reply_on();
         self.handlers.push((new_function_name, new_reply_on));
+
+        // Only the `success` handler can have the `data` parameter. It has to be kept
+        // regardless of the order in which the `success` and `error` handlers are declared.
+        if self.data.is_none() {
+            self.data = new_reply_data.data;
+        }
     }
 
     /// Emits success and error match arms for a single `ReplyId`.
